@@ -31,7 +31,11 @@ pub fn from_bytes(bytes: &[u8]) -> Result<HashMap<String, Vec<u8>>> {
         let name = reader.read_string()?.ok_or(ArcError::MissingName)?;
         let index = reader.read_u32()?;
         let size = reader.read_u32()?;
-        let address = reader.read_u32()? + header_padding;
+        let offset = reader.read_u32()?;
+        // An offset that does not fit once the header is added cannot lie inside the archive.
+        let address = offset.checked_add(header_padding).ok_or_else(|| {
+            crate::ArchiveError::OutOfBoundsAddress(offset as usize, archive.size())
+        })?;
         entries.push(ArcEntry {
             name,
             index,
